@@ -73,7 +73,11 @@ typedef struct { secp256k1_ge commit, gen; unsigned char extra[8]; size_t extral
 body_in_t nondet_body_in(void);
 void harness_body(void) {
     secp256k1_context ctx; body_in_t in = nondet_body_in(); uint64_t minv = 0, maxv = 0; int ret, i, bad_digit = 0, bad_scalar = 0, spare = 0; size_t off;
+#ifdef EXACTBUF
+    unsigned char proof[PLEN];                          /* C07: an object of exactly plen bytes, so that any read past the declared length is a bounds violation */
+#else
     unsigned char proof[HDRLEN + BODYLEN + 2];          /* uninitialised = symbolic; a plain local array so that the assigned header bytes are constants for symbolic execution */
+#endif
     verif_ctx_init(&ctx);
     /* header bytes ASSIGNED (class), everything after symbolic */
 #if MANT == 0
